@@ -160,12 +160,16 @@ def judge(inp, out, jobs, sample):
             env = dict(os.environ, PRAATIO_REPO=clone, PYTHONPATH=clone, VERIF_EVIDENCE_DIR="/tmp/mj/ev%d" % k, VERIF_REPLAY_DIR="/tmp/mj/rp%d" % k, PYTHONDONTWRITEBYTECODE="1")
             verdict = {}
             for prop in MAP.get(m["file"], []):
-                r = sh("/venv/bin/python -B /tmp/mj/verif/check.py %s --tier quick --shards 4 2>&1 | grep -v '^KNOWN' | grep -E '^  monitor|exit [012]$' | head -2" % prop, env=env, timeout=1500)
-                rc = re.search(r"exit (\d)$", r.stdout, re.M)
+                r = sh("/venv/bin/python -B /tmp/mj/verif/check.py %s --tier quick 2>&1 | grep -v '^KNOWN'" % prop, env=env, timeout=1500)
+                rc = re.search(r"-> exit (\d)\s*$", r.stdout, re.M)
                 verdict[prop] = int(rc.group(1)) if rc else 9
                 if verdict[prop] == 1:
-                    m["first"] = r.stdout.strip().splitlines()[0][:200]
+                    mon = re.search(r"^  monitor=.*$", r.stdout, re.M)
+                    m["first"] = mon.group(0)[:220] if mon else ""
                     break  # caught: one check is enough
+                if verdict[prop] == 2:
+                    inc = re.search(r"^INCONCLUSIVE.*$", r.stdout, re.M)
+                    m.setdefault("inconclusive", []).append((prop, inc.group(0)[:300] if inc else ""))
             sh("git checkout -- . && git clean -fdq", cwd=clone)
             sh("rm -rf /tmp/mj/rp%d" % k)
             m["checks"] = verdict
